@@ -224,7 +224,24 @@ template <typename F> Outcome loadPlain(const std::string & bytes, FaultBuf::Mod
 }
 
 template <typename B> field<B> fieldOf(Tok & t) { return field<B>(make_parameter_pack(IOX<B>::make(t))); }
-template <typename F> std::string dumpOf(const F & f) { std::ostringstream os; f.dump(os); return os.str(); }
+// append-only, NON-SEEKABLE sink (a pipe, a socket, a compressing filter): tellp() is -1, seekp() fails
+struct AppendBuf : std::streambuf {
+  std::string data;
+  int_type overflow(int_type ch) override { if (ch != traits_type::eof()) data.push_back(static_cast<char>(ch)); return ch; }
+  std::streamsize xsputn(const char * s, std::streamsize n) override { data.append(s, static_cast<std::size_t>(n)); return n; }
+};
+// the dump of a field; written once into a string stream and once into a non-seekable stream: the bytes do not depend on the sink
+template <typename F> std::string dumpOf(const F & f) {
+  std::ostringstream os; f.dump(os);
+  AppendBuf ab; std::ostream ns(&ab);
+  bool threw = false;
+  try { f.dump(ns); } catch (const std::exception & e) { threw = true; std::cerr << "Assertion `dump into a non-seekable stream succeeds' failed: " << e.what() << std::endl; }
+  if (threw || ab.data != os.str()) {
+    if (!threw) std::cerr << "Assertion `dump into a non-seekable stream writes the same bytes' failed: " << ab.data.size() << " vs " << os.str().size() << " bytes" << std::endl;
+    std::abort();
+  }
+  return os.str();
+}
 
 inline FaultBuf::Mode modeOf(const std::string & s) {
   if (s == "cut") return FaultBuf::CUT; if (s == "short") return FaultBuf::NTH_SHORT; if (s == "half") return FaultBuf::NTH_HALF;
